@@ -169,4 +169,51 @@ have -> : A = H *m B *m H by rewrite eB0 !mulmxA HH mul1mx -mulmxA HH mulmx1.
 by rewrite eB trmx_mul sH !mulmxA.
 Qed.
 
+(* ---- reduced QR factorisation (Householder), k = min(n, m) columns ------------------------ *)
+(* a symmetric orthogonal H that maps a given column c to a multiple of e_0 *)
+Lemma householder_col n (c : 'cV[F]_n.+1) :
+  exists H : 'M[F]_n.+1, exists r : F, [/\ H^T = H, H *m H = 1%:M & H *m c = r *: delta_mx 0 0].
+Proof.
+case: (eqVneq c 0) => [->|c0].
+  by exists 1%:M, 0; split; rewrite ?trmx1 ?mulmx1 ?mulmx0 ?scale0r.
+pose nc := Num.sqrt ((c^T *m c) 0 0).
+have cc0 : 0 < (c^T *m c) 0 0 by apply: dot_gt0.
+have nc0 : nc != 0 by rewrite gt_eqF // sqrtr_gt0.
+pose x : 'cV[F]_n.+1 := nc^-1 *: c.
+have x1 : (x^T *m x) 0 0 = 1.
+  rewrite /x -scalemxAr linearZ /= -scalemxAl scalerA mxE -invfM -expr2 sqr_sqrtr ?ltW //.
+  by rewrite mulVf // gt_eqF.
+have [H [sH HH He]] := householder x1.
+exists H, nc; split=> //.
+have -> : c = nc *: x by rewrite /x scalerA divff // scale1r.
+by rewrite -scalemxAr -He mulmxA HH mul1mx.
+Qed.
+
+Lemma qr_exists n m k (C : 'M[F]_(n, m)) :
+  k = minn n m -> exists Q : 'M[F]_(n, k), exists R : 'M[F]_(k, m), Q *m R = C /\ Q^T *m Q = 1%:M.
+Proof.
+elim: n m k C => [|n IH] m k C.
+  rewrite min0n => ->; exists 0, 0; split; first by apply/matrixP => -[].
+  by apply/matrixP => -[].
+case: m C => [|m] C.
+  rewrite minn0 => ->; exists 0, 0; split; first by apply/matrixP => i [].
+  by apply/matrixP => -[].
+rewrite minnSS => ->.
+change ('M[F]_(1 + n, 1 + m)) in C.
+have [H [r [sH HH Hc]]] := householder_col (lsubmx C).
+pose D : 'M[F]_(1 + n, 1 + m) := H *m C.
+have [Q' [R' [QR' QQ']]] := IH m (minn n m) (drsubmx D) (erefl _).
+have dl0 : dlsubmx D = 0.
+  rewrite /dlsubmx /D -mul_dsub_mx -mulmx_lsub mul_dsub_mx Hc; apply/matrixP => i j; rewrite !mxE !ord1.
+  by rewrite (_ : (rshift 1 i == 0 :> 'I_(1 + n)) = false) ?mulr0.
+pose Q : 'M[F]_(1 + n, 1 + minn n m) := (H : 'M[F]_(1 + n)) *m block_mx (1%:M : 'M[F]_1) 0 0 Q'.
+pose R : 'M[F]_(1 + minn n m, 1 + m) := block_mx (ulsubmx D) (ursubmx D) 0 R'.
+exists Q, R; split.
+  rewrite /Q /R -mulmxA (@mulmx_block _ 1 n 1 (minn n m) 1 m) !mul1mx !mul0mx !mulmx0 !addr0 add0r QR'.
+  have -> : block_mx (ulsubmx D) (ursubmx D) 0 (drsubmx D) = D by rewrite -dl0 submxK.
+  by rewrite /D mulmxA HH mul1mx.
+rewrite /Q trmx_mul sH -mulmxA (mulmxA H) HH mul1mx.
+by rewrite (@tr_block_mx _ 1 n 1 (minn n m)) (@mulmx_block _ 1 (minn n m) 1 n 1 (minn n m)) !trmx0 trmx1 !mulmx0 !mul0mx mul1mx !addr0 add0r QQ' -scalar_mx_block.
+Qed.
+
 End Spectral.
